@@ -128,15 +128,18 @@ type histEnv struct {
 	instr     map[string][]qframe.Instruction
 	selectCol []string
 	dropCol   []string
-	aggs      []qframe.Aggregation
-	ownedInt  []int
-	ownedFlt  []float64
-	ownedBool []bool
-	ownedStr  []*string
-	exprFlat  qframe.Expression
-	exprNest  qframe.Expression
-	exprAbs   qframe.Expression
-	argDigest string
+	// one key list handed to GroupBy and to Distinct (several type classes, most expensive first)
+	sharedKeys []string
+	selfCopy   []qframe.Instruction
+	aggs       []qframe.Aggregation
+	ownedInt   []int
+	ownedFlt   []float64
+	ownedBool  []bool
+	ownedStr   []*string
+	exprFlat   qframe.Expression
+	exprNest   qframe.Expression
+	exprAbs    qframe.Expression
+	argDigest  string
 }
 
 func (e *histEnv) digestArgs() string {
@@ -145,7 +148,10 @@ func (e *histEnv) digestArgs() string {
 		sb.WriteString(e.clauses[k].String())
 		sb.WriteByte(';')
 	}
-	fmt.Fprintf(&sb, "%v;%v;%v;%v;", e.orders1, e.orders2, e.selectCol, e.dropCol)
+	fmt.Fprintf(&sb, "%v;%v;%v;%v;%v;", e.orders1, e.orders2, e.selectCol, e.dropCol, e.sharedKeys)
+	for _, in := range e.selfCopy {
+		fmt.Fprintf(&sb, "%s<-%s,%s;", in.DstCol, in.SrcCol1, in.SrcCol2)
+	}
 	for _, k := range []string{"const", "fn1", "fn2", "upper", "upperE", "fconst"} {
 		for _, in := range e.instr[k] {
 			fmt.Fprintf(&sb, "%s<-%s,%s;", in.DstCol, in.SrcCol1, in.SrcCol2)
@@ -176,13 +182,17 @@ func newHistEnv() *histEnv {
 		// an Or whose first member is a plain test of the bool column (and the same members the other way round)
 		"orbool":  qframe.Or(qframe.Filter{Column: "b", Comparator: "=", Arg: true}, qframe.Filter{Column: "i", Comparator: ">", Arg: 0}),
 		"orbool2": qframe.Or(qframe.Filter{Column: "i", Comparator: ">", Arg: 0}, qframe.Filter{Column: "b", Comparator: "=", Arg: true}),
-		"colIF": qframe.Filter{Column: "i", Comparator: ">", Arg: types.ColumnName("f")},
-		"colFI": qframe.Filter{Column: "f", Comparator: "<=", Arg: types.ColumnName("k")},
+		"colIF":   qframe.Filter{Column: "i", Comparator: ">", Arg: types.ColumnName("f")},
+		"colFI":   qframe.Filter{Column: "f", Comparator: "<=", Arg: types.ColumnName("k")},
 	}
 	e.orders1 = []qframe.Order{{Column: "k"}}
 	e.orders2 = []qframe.Order{{Column: "e", Reverse: true, NullLast: true}, {Column: "i"}}
 	e.selectCol = []string{"s", "i", "k"}
 	e.dropCol = []string{"f"}
+	e.sharedKeys = []string{"s", "b", "f", "k"}
+	// a copy of a column onto itself (documented as a no-op) followed by instructions that overwrite it
+	e.selfCopy = []qframe.Instruction{{Fn: types.ColumnName("i"), DstCol: "i"}, {Fn: 7, DstCol: "i"},
+		{Fn: func(x int) int { return x - 1 }, DstCol: "i", SrcCol1: "i"}, {Fn: "ToUpper", DstCol: "s", SrcCol1: "s"}}
 	e.instr = map[string][]qframe.Instruction{
 		"const":  {{Fn: 7, DstCol: "i"}},
 		"fn1":    {{Fn: func(x int) int { return x + 1 }, DstCol: "i", SrcCol1: "i"}},
@@ -350,6 +360,21 @@ func c01Ops() []histOp {
 		frameOp("WithRowNums(rn)", func(e *histEnv, q qframe.QFrame) qframe.QFrame { return q.WithRowNums("rn") }),
 		frameOp("Distinct(k)", func(e *histEnv, q qframe.QFrame) qframe.QFrame { return q.Distinct(groupby.Columns("k")) }),
 		frameOp("Distinct()", func(e *histEnv, q qframe.QFrame) qframe.QFrame { return q.Distinct() }),
+		frameOp("Distinct(shared key list s,b,f,k)", func(e *histEnv, q qframe.QFrame) qframe.QFrame {
+			return q.Distinct(groupby.Columns(e.sharedKeys...))
+		}),
+		{name: "GroupBy(shared key list s,b,f,k)", on: mFrame, apply: func(e *histEnv, fam []*member, m *member) []*member {
+			nm := &member{kind: mGrouper, g: m.qf.GroupBy(groupby.Columns(e.sharedKeys...)), origin: "GroupBy(shared key list)"}
+			nm.digest = nm.observe()
+			nm.isErr = nm.g.Err != nil
+			return []*member{nm}
+		}},
+		frameOp("Apply(i<-i self copy, const->i, fn i->i, ToUpper s->s)", func(e *histEnv, q qframe.QFrame) qframe.QFrame {
+			return q.Apply(e.selfCopy...)
+		}),
+		frameOp("FilteredApply(i>1, i<-i self copy, const->i, fn i->i, ToUpper s->s)", func(e *histEnv, q qframe.QFrame) qframe.QFrame {
+			return q.FilteredApply(e.clauses["leaf"], e.selfCopy...)
+		}),
 		{name: "GroupBy(k)", on: mFrame, apply: func(e *histEnv, fam []*member, m *member) []*member {
 			nm := &member{kind: mGrouper, g: m.qf.GroupBy(groupby.Columns("k")), origin: "GroupBy(k)"}
 			nm.digest = nm.observe()
